@@ -9,9 +9,13 @@ from .common import Check, COQ, VERIF
 
 
 def props():
+    """the properties claimed in MANIFEST.json (others may be under construction)"""
+    import json
+    m = json.load(open(os.path.join(VERIF, "MANIFEST.json")))
     out = []
-    for d in sorted(os.listdir(COQ)):
-        if d.startswith("C") and d[1:].isdigit() and os.path.exists(os.path.join(VERIF, "harness", d.lower() + ".py")):
+    for c in m["checks"]:
+        d = c["property_id"]
+        if os.path.isdir(os.path.join(COQ, d)) and os.path.exists(os.path.join(VERIF, "harness", d.lower() + ".py")):
             out.append(d)
     return out
 
